@@ -696,6 +696,36 @@ pub fn c04_fixed_tx<S: Src>(_s: &mut S) {
 fn blake(b: &[u8]) -> Vec<u8> { hash_plutus_data(&PlutusData::from_bytes(b.to_vec()).unwrap()).to_bytes() }
 
 // ---------------------------------------------------------------- C13: send-all batches, through the public API
+/// the same asset sits in several UTxOs and its summed quantity needs a wider CBOR integer than any single amount: every
+/// output of a successful send-all still respects max_value_size (swept over the few bytes where the widths matter)
+fn c13_value_size_scenarios(failures: &mut Vec<String>) {
+    let owner = BaseAddress::new(0, &kc(1), &kc(2)).to_address();
+    let target = BaseAddress::new(0, &kc(5), &kc(6)).to_address();
+    let lin = LinearFee::new(&bn(44), &bn(155381));
+    for (amount, holders) in [(200u64, 2usize), (40_000, 2), (200, 3), (20, 2)] {
+        for n_assets in [1usize, 2, 3] {
+            let mut utxos = TransactionUnspentOutputs::new();
+            let mut idx = 0u32;
+            for h in 0..holders {
+                let mut ma = MultiAsset::new();
+                for a in 0..n_assets { ma.set_asset(&ScriptHash::from([7u8; 28]), &AssetName::new(vec![a as u8 + 1; 4]).unwrap(), &bn(amount)); }
+                utxos.add(&TransactionUnspentOutput::new(&TransactionInput::new(&TransactionHash::from([0x5cu8; 32]), idx), &TransactionOutput::new(&owner, &Value::new_with_assets(&bn(3_000_000 + h as u64), &ma))));
+                idx += 1;
+            }
+            for max_value_size in 40u32..110 {
+                let cfg = TransactionBuilderConfigBuilder::new().fee_algo(&lin).pool_deposit(&bn(500_000_000)).key_deposit(&bn(2_000_000))
+                    .max_value_size(max_value_size).max_tx_size(16384).coins_per_utxo_byte(&bn(4310)).build().unwrap();
+                if let Ok(batches) = create_send_all(&target, &utxos, &cfg) {
+                    for bi in 0..batches.len() { let batch = batches.get(bi); for ti in 0..batch.len() { let body = batch.get(ti).body(); for oi in 0..body.outputs().len() {
+                        let sz = body.outputs().get(oi).amount().to_bytes().len();
+                        if sz > max_value_size as usize && failures.len() < 5 { failures.push(format!("send-all ({} assets x {} holders of {}): output value is {} bytes, max_value_size is {}", n_assets, holders, amount, sz, max_value_size)); }
+                    } } }
+                }
+            }
+        }
+    }
+}
+
 pub fn c13_send_all<S: Src>(_s: &mut S) {
     let owner_tokens = BaseAddress::new(0, &kc(1), &kc(2)).to_address();
     let owner_ada = BaseAddress::new(0, &kc(3), &kc(4)).to_address();
@@ -719,6 +749,7 @@ pub fn c13_send_all<S: Src>(_s: &mut S) {
     }
     let lin = LinearFee::new(&bn(44), &bn(155381));
     let mut failures: Vec<String> = Vec::new();
+    c13_value_size_scenarios(&mut failures);
     let mut successes = 0;
     let mut limit = 1400u32;
     while limit <= 2600 {
